@@ -1,1 +1,12 @@
-import CG.Model.TS
+import CG.Proofs.C15
+
+#print axioms CG.C15.extend_eq_unroll
+#print axioms CG.C15.extend_ok
+#print axioms CG.C15.extend_negative
+#print axioms CG.C15.minimal_extend
+#print axioms CG.C15.extend_templates
+#print axioms CG.C15.extend_vars
+#print axioms CG.C15.parents_shift_invariant
+#print axioms CG.C15.extend_mono
+#print axioms CG.C15.extend_acyclic
+#print axioms CG.C15.extend_attrs
